@@ -123,6 +123,12 @@ Theorem C04_dispatch_is_the_translated_source : forall h a mc w,
   Some (sd_message_received h a mc w) = if gen_sd_accept (sd_unicast h) then run_dispatch (sd_entries h) a mc w else Some w.
 Proof. exact sd_message_received_is_the_translated_source. Qed.
 
+(* start / stop of the protocol object call the three components in the order translated from the source text of sd.py *)
+Theorem C04_start_stop_order_is_the_translated_source : forall w,
+  proto_start w = fold_left (run_pact true) gen_proto_start w /\ proto_stop w = fold_left (run_pact false) gen_proto_stop w.
+Proof. exact proto_start_stop_are_the_translated_source. Qed.
+
+Print Assumptions C04_start_stop_order_is_the_translated_source.
 Print Assumptions C04_crash_is_silent.
 Print Assumptions C04_both_stacks_well_formed_in_every_state.
 Print Assumptions C04_restart_is_fresh.
